@@ -1,5 +1,6 @@
 """C01 - soft/hard state machine.  Generators for the correspondence run."""
 import random, itertools
+from . import ckgen
 
 PID = 'C01'
 HEADER = ['obs sc ncr']
@@ -7,11 +8,14 @@ T0 = 2000000000
 RULE = ('exhaustive result histories over {OK,WARNING,CRITICAL,UNKNOWN}^L x {host,service} x max_check_attempts 1..4 x volatile '
         'x {pending start, after OK, after hard problem}; random histories of length 50-300 with max<=12, active/passive, '
         'non-decreasing whole-second timestamps; a separate stream with stale and future-dated results. '
+        'a combined-fixture stream (real Host/Service with parent, Downtime and Comment objects, ops of harness/ops_ckfull.cpp): flapping enabled with thresholds that toggle '
+        '(alternating states), acknowledgements through all entry points, downtimes, suppressed-notification timer, pause, parent results and stale results interleaved - '
+        'state/state type/attempt/last hard state compared after EVERY operation and the C01 oracle run over the results; '
         'non-trivial = at least two results and at least one non-OK result; distinct = distinct script text')
 TRUSTED = ['model: coq/Ck/CkState.v (transcription of Checkable::ProcessCheckResult lines 165-301,443-454); '
            'source facts re-extracted each run: enum values, checkable.ti defaults, Host::CalculateState/IsStateOK, Service::IsStateOK (coq/Facts/Facts_enums.v, Facts_c01.v)',
            'hook H1 (virtual clock) in lib/base/utility.cpp']
-ASSUMPTIONS = ['timestamps are whole seconds (exact in binary64)', 'flapping detection does not influence state/state type/attempt (exercised with enable_flapping on and off, not proved)']
+ASSUMPTIONS = ['timestamps are whole seconds (exact in binary64)', 'flapping detection, acknowledgements, downtimes, suppression, parent state and pause do not influence state/state type/attempt/event: proved for the combined model (coq/Ck/CkLayer.v, C01_full_projection*), and compared on the real objects by the combined-fixture stream']
 
 
 def mk(kind, mx, vol, flap, hist, fam, t_step=10, prefix=()):
@@ -67,32 +71,88 @@ def generate(seed, tier):
             d = rnd.choice((0, 0, 0, -1, -5, -20, 1, 30))   # result stamped in the past / future of the clock
             lines.append('cr state=%d start=%d end=%d' % (rnd.randint(0, 3), t + d, t + d))
         cases.append({'lines': lines, 'tags': {'family': 'stale-and-future'}})
+    ncomb = {'quick': 3000, 'thorough': 20000, 'search': 3000}.get(tier, 3000)
+    for i in range(ncomb):
+        cases.append(combined_case(rnd))
     return cases
 
 
+W_COMB = {'adv': 5, 'result': 9, 'stale': 0.7, 'ack': 1.5, 'unack': 0.6, 'ackread': 0.6, 'cmtimer': 0.3, 'dt_add': 1.2, 'dt_remove': 0.5,
+          'dt_starttimer': 0.6, 'dt_cleanup': 0.6, 'fire': 1.5, 'parent': 0.8, 'pause': 0.3, 'nextcheck': 0.3}
+
+
+def combined_case(rnd):
+    """combined fixture (CkFull): flapping that really toggles + everything else interleaved"""
+    g = ckgen.Gen(rnd, flap=int(rnd.random() < 0.8), vol=int(rnd.random() < 0.2))
+    names = list(W_COMB)
+    ws = [W_COMB[k] for k in names]
+    if g.active:
+        g.nextcheck()
+    last = 0
+    mode = rnd.choice(('alternate', 'alternate', 'runs', 'random'))
+    for _ in range(rnd.randint(25, 70)):
+        k = rnd.choices(names, ws)[0]
+        if k == 'adv': g.adv()
+        elif k == 'result':
+            if mode == 'alternate':      # state changes on most results: drives the flapping value over the high threshold
+                s = rnd.choice((1, 2, 3)) if last == 0 or rnd.random() < 0.25 else 0
+            elif mode == 'runs':         # long quiet runs: lets it fall below the low threshold again
+                s = last if rnd.random() < 0.85 else rnd.choice((0, 1, 2, 3))
+            else:
+                s = rnd.choice((0, 0, 1, 2, 2, 3))
+            if rnd.random() < 0.03:
+                mode = rnd.choice(('alternate', 'runs', 'random'))
+            last = s
+            g.result(s)
+        elif k == 'stale':
+            d = rnd.choice((-1, -5, -20, 1, 30))
+            g.lines.append('crf state=%d start=%d end=%d' % (rnd.randint(0, 3), g.t + d, g.t + d))
+        elif k == 'ack': g.ack()
+        elif k == 'unack': g.unack()
+        elif k in ('ackread', 'cmtimer', 'dt_starttimer', 'fire'): g.simple(k)
+        elif k == 'dt_add': g.dt_add()
+        elif k == 'dt_remove': g.dt_remove()
+        elif k == 'dt_cleanup': g.dt_cleanup()
+        elif k == 'parent': g.parent()
+        elif k == 'pause': g.pause()
+        elif k == 'nextcheck': g.nextcheck()
+    return g.case('combined-flapping-ack-downtime')
+
+
 def nontrivial(case, impl_lines):
-    crs = [l for l in case['lines'] if l.startswith('cr ')]
+    crs = [l for l in case['lines'] if l.startswith('cr ') or l.startswith('crf ')]
     return len(crs) >= 2 and any('state=0' not in l for l in crs)
 
 
 def classify(case, detail, impl_lines):
     if 'crash' in detail:
         return 'crash'
+    if 'layering' in detail:
+        return 'layering'
     if 'stale' in detail or 'rejected' in detail:
         return 'stale-handling'
     return 'state-machine'
 
 
 def keep_line(l):
-    return l.startswith('ck_new')
+    return l.startswith('ck_new') or l.startswith('ckf_new') or l == 'now %d' % T0
 
 
 def extra_stats(cases, impl):
     hard = soft = none = rej = 0
+    fl_on = fl_toggles = 0
     for c in cases:
         for l in impl.get(c['id'], []):
             if ' sc=H' in l: hard += 1
             elif ' sc=S' in l: soft += 1
             elif 'res=3' in l: rej += 1
-            elif l.startswith('cr '): none += 1
-    return {'hard_events': hard, 'soft_events': soft, 'no_event_steps': none, 'rejected_stale_results': rej}
+            elif l.startswith('cr ') or l.startswith('crf '): none += 1
+    for c in cases:
+        prev = None
+        for l in impl.get(c['id'], []):
+            if ' fl=' in l:
+                v = l.split(' fl=')[1][:1]
+                fl_on += v == '1'
+                if prev is not None and v != prev: fl_toggles += 1
+                prev = v
+    return {'combined_lines_flapping': fl_on, 'combined_flapping_toggles': fl_toggles, 'hard_events': hard, 'soft_events': soft, 'no_event_steps': none, 'rejected_stale_results': rej}
